@@ -173,7 +173,7 @@ func (fn *Func) GuardsAt(n ast.Node) *Formula {
 		if !inc || len(fn.Assignments(io)) != 2 {
 			continue
 		}
-		parts = append(parts, &Formula{Atom: &Atom{E: &ast.BinaryExpr{X: iv, Op: token.GEQ, Y: init.Rhs[0]}, Pol: true}})
+		parts = append(parts, &Formula{Atom: &Atom{E: &ast.BinaryExpr{X: iv, Op: token.GEQ, Y: init.Rhs[0]}, Pol: true, Expanded: true}})
 	}
 	if root := rootFunc(fn); root.extraGuard != nil {
 		if eg := root.extraGuard[n]; eg != nil {
